@@ -188,11 +188,12 @@ type IniOutcome struct {
 	Values      map[*decl.Opt][]string // texts assigned per option, in file order (only meaningful when Faults is empty)
 	Sections    map[*decl.Opt]map[string]bool
 	Unspecified map[*decl.Opt]bool
+	MayFault    map[int]bool // lines the reader may, but need not, reject (a value given to a callback that takes none)
 }
 
 // ApplyIni interprets text against d. topGroup names the group of the parser's own options.
 func ApplyIni(d *decl.Decl, text string, ignoreUnknown bool, topGroup string) *IniOutcome {
-	out := &IniOutcome{File: ReadIni(text), Values: map[*decl.Opt][]string{}, Sections: map[*decl.Opt]map[string]bool{}, Unspecified: map[*decl.Opt]bool{}}
+	out := &IniOutcome{File: ReadIni(text), Values: map[*decl.Opt][]string{}, Sections: map[*decl.Opt]map[string]bool{}, Unspecified: map[*decl.Opt]bool{}, MayFault: map[int]bool{}}
 	f := out.File
 	if f.SyntaxLine > 0 {
 		out.Faults = []IniFault{{Line: f.SyntaxLine, What: f.SyntaxWhat}}
@@ -232,6 +233,10 @@ func ApplyIni(d *decl.Decl, text string, ignoreUnknown bool, topGroup string) *I
 				// a flag without value: set
 			case o.Type.IsFunc():
 				out.Unspecified[o] = true
+				if o.Type.IsFlag() {
+					// func() given a value: rejecting the line and ignoring the value are both within the statement
+					out.MayFault[e.Line] = true
+				}
 			default:
 				text := val
 				_, err := Apply(Empty(o.Type.RT), o.BaseN(), text)
